@@ -212,3 +212,238 @@ Proof.
   rewrite (take_vals_stream rates rest) by (assumption || lia). cbn [bind fst snd app].
   reflexivity.
 Qed.
+
+(* ---- ADF12: a block and a whole file ------------------------------------------------------------------------------- *)
+Definition ints_of (fields : list str) : option (list Z) := mapM parse_int (map repl fields).
+
+Lemma read_ints_rt p fields vs rest :
+  1 <= p -> Forall len9 fields -> ints_of fields = Some vs ->
+  read_ints (List.length fields) p (write_values p fields ++ rest) = Ok (vs, rest).
+Proof.
+  intros Hp Hall Hv. unfold read_ints. rewrite write_values_roundtrip by assumption.
+  unfold ints_of in Hv. rewrite Hv. reflexivity.
+Qed.
+
+Definition section_ok (sec : list str) (sp : nat * nat) : Prop := List.length sec = fst sp /\ Forall len9 sec.
+Fixpoint truncated (secvs : list (list Q)) (spec : list (nat * nat)) (counts : list Z) : list (list Q) :=
+  match secvs, spec with
+  | v :: vs, sp :: sps => take (nth (snd sp) counts 0%Z) v :: truncated vs sps counts
+  | _, _ => []
+  end.
+
+Lemma read_sections_rt : forall secs spec secvs counts rest,
+  Forall2 section_ok secs spec -> mapM floats_of secs = Some secvs ->
+  read_sections spec counts (flat_map (write_values adf12_per_line) secs ++ rest) = Ok (truncated secvs spec counts, rest).
+Proof.
+  induction secs as [|sec secs IH]; intros spec secvs counts rest H2 Hv.
+  - inversion H2; subst. cbn in Hv. inversion Hv. reflexivity.
+  - inversion H2 as [|a b l l' Hab Hl]; subst. destruct b as [n ci]. destruct Hab as [Hlen H9]. cbn [fst] in Hlen.
+    cbn [mapM] in Hv. destruct (floats_of sec) as [cv|] eqn:Ec; [|discriminate].
+    destruct (mapM floats_of secs) as [rv|] eqn:Er; [|discriminate]. inversion Hv; subst secvs.
+    cbn [read_sections flat_map]. rewrite <- app_assoc. rewrite <- Hlen.
+    rewrite (read_floats_rt adf12_per_line sec cv) by (assumption || (unfold adf12_per_line; lia)).
+    cbn [bind fst snd]. rewrite (IH l' rv counts rest Hl eq_refl). reflexivity.
+Qed.
+
+Section Adf12Block.
+  (* header line: 38 characters of free text, the upper level (2), one character, the lower level (2), free text *)
+  Variables (pre up2 lo2 tailh : str) (c40 : ascii).
+  Variables (qef : str) (parm cnts : list str) (s0 s1 s2 s3 s4 s5 s6 s7 s8 s9 : list str) (rest : list str).
+  Definition adf12_header : str := pre ++ up2 ++ ([c40] ++ lo2 ++ tailh).
+  Definition write_adf12_block : list str :=
+    adf12_header :: write_values adf12_per_line [qef] ++ write_values adf12_per_line parm ++ write_values adf12_per_line cnts
+    ++ flat_map (write_values adf12_per_line) [s0; s1; s2; s3; s4; s5; s6; s7; s8; s9] ++ rest.
+
+  Variables (up lo : Z) (qef_v p0 p1 p2 p3 p4 : Q) (n0 n1 n2 n3 n4 : Z) (v0 v1 v2 v3 v4 v5 v6 v7 v8 v9 : list Q).
+  Hypothesis Hpre : List.length pre = 38.
+  Hypothesis Hup2 : List.length up2 = 2.
+  Hypothesis Hlo2 : List.length lo2 = 2.
+  Hypothesis Hqef9 : len9 qef.
+  Hypothesis Hparm : List.length parm = 5 /\ Forall len9 parm.
+  Hypothesis Hcnts : List.length cnts = 5 /\ Forall len9 cnts.
+  Hypothesis Hsecs : Forall2 section_ok [s0; s1; s2; s3; s4; s5; s6; s7; s8; s9] adf12_sections.
+  Hypothesis Pup : parse_int up2 = Some up.
+  Hypothesis Plo : parse_int lo2 = Some lo.
+  Hypothesis Pqef : floats_of [qef] = Some [qef_v].
+  Hypothesis Pparm : floats_of parm = Some [p0; p1; p2; p3; p4].
+  Hypothesis Pcnts : ints_of cnts = Some [n0; n1; n2; n3; n4].
+  Hypothesis Psecs : mapM floats_of [s0; s1; s2; s3; s4; s5; s6; s7; s8; s9] = Some [v0; v1; v2; v3; v4; v5; v6; v7; v8; v9].
+
+  Theorem adf12_block_roundtrip :
+    adf12_block write_adf12_block =
+    Ok ({| e_keys := [KZ up; KZ lo];
+           e_shape := [zlen (take n0 v0); zlen (take n1 v2); zlen (take n2 v4); zlen (take n3 v6); zlen (take n4 v8)];
+           e_vals := [ take n0 v0; take n1 v2; scale per_cm3 (take n2 v4); take n3 v6; take n4 v8;
+                       scale cm3 (take n0 v1); scale cm3 (take n1 v3); scale cm3 (take n2 v5); scale cm3 (take n3 v7);
+                       scale cm3 (take n4 v9);
+                       [p0; p1; Qred (per_cm3 * p2)%Q; p3; p4; Qred (cm3 * qef_v)%Q] ] |}, rest).
+  Proof.
+    unfold adf12_block, write_adf12_block. cbn [readline]. unfold adf12_header.
+    rewrite (int_c_mid (c12 1) pre up2 _ up) by (rewrite ?Hpre, ?Hup2; try reflexivity; assumption).
+    cbn [bind].
+    rewrite (app_assoc pre up2), (app_assoc (pre ++ up2) [c40]).
+    rewrite (int_c_mid (c12 2) ((pre ++ up2) ++ [c40]) lo2 tailh lo)
+      by (rewrite ?app_length, ?Hpre, ?Hup2, ?Hlo2; try reflexivity; assumption).
+    cbn [bind]. destruct Hparm as [Hp5 Hp9]. destruct Hcnts as [Hc5 Hc9].
+    change (nth 0 adf12_head_reads 0) with (List.length [qef]).
+    rewrite (read_floats_rt adf12_per_line [qef] [qef_v]) by (try (unfold adf12_per_line; lia); try assumption; repeat constructor; assumption).
+    cbn [bind fst snd]. change (nth 1 adf12_head_reads 0) with 5. rewrite <- Hp5.
+    rewrite (read_floats_rt adf12_per_line parm [p0; p1; p2; p3; p4]) by (assumption || (unfold adf12_per_line; lia)).
+    cbn [bind fst snd]. change (nth 2 adf12_head_reads 0) with 5. rewrite <- Hc5.
+    rewrite (read_ints_rt adf12_per_line cnts [n0; n1; n2; n3; n4]) by (assumption || (unfold adf12_per_line; lia)).
+    cbn [bind fst snd].
+    rewrite (read_sections_rt _ _ _ _ rest Hsecs Psecs).
+    cbn [bind fst snd truncated adf12_sections nth]. reflexivity.
+  Qed.
+End Adf12Block.
+
+(* a piece of text that adf12_block reads as the entry e, whatever follows (adf12_block_roundtrip: the writer's blocks) *)
+Definition is_adf12_block (be : (list str -> list str) * entry) : Prop :=
+  forall rest, adf12_block (fst be rest) = Ok (snd be, rest).
+
+Lemma adf12_blocks_rt : forall blocks rest acc, Forall is_adf12_block blocks ->
+  adf12_blocks (List.length blocks) (fold_right (fun be r => fst be r) rest blocks) acc
+  = Ok (fold_left (fun a be => tbl_set (snd be) a) blocks acc).
+Proof.
+  induction blocks as [|be blocks IH]; intros rest acc H; [reflexivity|].
+  inversion H as [|x l Hx Hl]; subst. cbn [List.length adf12_blocks fold_right fold_left].
+  rewrite (Hx _). cbn [bind fst snd]. apply IH. exact Hl.
+Qed.
+
+(* FILE LEVEL, ADF12: the I5 block count, then any number of blocks (also more than 99), then anything *)
+Theorem adf12_file_roundtrip : forall c5 tail blocks rest,
+  List.length c5 = 5 -> parse_int c5 = Some (Z.of_nat (List.length blocks)) -> Forall is_adf12_block blocks ->
+  parse_adf12 ((c5 ++ tail) :: fold_right (fun be r => fst be r) rest blocks)
+  = Ok (fold_left (fun a be => tbl_set (snd be) a) blocks []).
+Proof.
+  intros c5 tail blocks rest H5 Hp Hb. unfold parse_adf12. cbn [readline].
+  change (c5 ++ tail) with ([] ++ c5 ++ tail).
+  rewrite (int_c_mid (c12 0) [] c5 tail _) by (rewrite ?H5; try reflexivity; eassumption).
+  cbn [bind]. unfold nat_of. rewrite Nat2Z.id. apply adf12_blocks_rt. exact Hb.
+Qed.
+
+(* ---- ADF11: the block loop and the whole file ------------------------------------------------------------------------
+   The recognition of lines by the regular expressions enters as hypotheses on the lines (which expression matches which
+   line); everything else -- the state machine of lines 81-123, the token streams, reshape + swapaxes, the keyed table, the
+   header check -- is proved. *)
+Section Adf11.
+  Variable rx : rx11.
+  Variables (n_t n_d : Z) (dens temps : list Q).
+  Definition sep l := re_matches false (r11_sep rx) l.
+
+  (* one charge-state block of the file: its header line, the charge the header carries, its data lines *)
+  Record block11 := { b_hdr : str; b_z : Z; b_data : list str }.
+  Definition block11_ok (b : block11) : Prop :=
+    sep (b_hdr b) = true /\ re_matches false (r11_end_c rx) (b_hdr b) = false /\
+    (exists zs, re_search false (r11_z1 rx) (b_hdr b) = Some zs /\ parse_int (sub_z1 zs) = Some (b_z b)) /\
+    (exists d0 ds, b_data b = d0 :: ds /\ re_matches false (r11_c_line rx) d0 = false) /\
+    Forall (fun d => sep d = false) (b_data b) /\
+    zlen (fromstring (b_data b)) = (n_t * n_d)%Z.
+  Definition block11_entry (b : block11) : entry :=
+    {| e_keys := [KZ (b_z b)]; e_shape := [n_d; n_t];
+       e_vals := [dens; temps; swap_flat (nat_of n_t) (nat_of n_d) (fromstring (b_data b))] |}.
+  Definition block11_text (b : block11) : list str := b_hdr b :: b_data b.
+  Definition blocks11_text (bs : list block11) : list str := flat_map block11_text bs.
+
+  (* the terminator: a separator line that is the 'C---' line, or a dash line followed by a 'C' line *)
+  Definition terminator_ok (t : str) (after : list str) : Prop :=
+    sep t = true /\
+    (re_matches false (r11_end_c rx) t = true \/
+     (re_matches false (r11_end_dash rx) t = true /\ exists n more, after = n :: more /\ re_matches false (r11_c_line rx) n = true)).
+
+  Lemma loop_data : forall ds rest acc z R, Forall (fun d => sep d = false) ds ->
+    adf11_loop rx n_t n_d (Some dens) (Some temps) (ds ++ rest) {| s_start := Some acc; s_charge := z; s_rates := R |}
+    = adf11_loop rx n_t n_d (Some dens) (Some temps) rest {| s_start := Some (rev ds ++ acc); s_charge := z; s_rates := R |}.
+  Proof.
+    induction ds as [|d ds IH]; intros rest acc z R H; [reflexivity|].
+    inversion H as [|x l Hd Hl]; subst. cbn [app adf11_loop]. unfold sep in Hd. rewrite Hd. cbn [s_start s_charge s_rates].
+    rewrite IH by exact Hl. cbn [rev]. rewrite <- app_assoc. reflexivity.
+  Qed.
+
+  Lemma store_pending : forall b R, zlen (fromstring (b_data b)) = (n_t * n_d)%Z ->
+    store_block n_t n_d (Some dens) (Some temps) {| s_start := Some (rev (b_data b)); s_charge := b_z b; s_rates := R |} (rev (b_data b))
+    = Ok (tbl_set (block11_entry b) R).
+  Proof.
+    intros b R H. unfold store_block. rewrite rev_involutive, H, Z.eqb_refl. reflexivity.
+  Qed.
+
+  Lemma loop_blocks : forall bs p R t after, Forall block11_ok bs -> terminator_ok t after ->
+    zlen (fromstring (b_data p)) = (n_t * n_d)%Z ->
+    adf11_loop rx n_t n_d (Some dens) (Some temps) (blocks11_text bs ++ t :: after)
+               {| s_start := Some (rev (b_data p)); s_charge := b_z p; s_rates := R |}
+    = Ok (fold_left (fun a b => tbl_set (block11_entry b) a) bs (tbl_set (block11_entry p) R)).
+  Proof.
+    induction bs as [|b bs IH]; intros p R t after Hbs Ht Hp.
+    - destruct Ht as (Hsep & Hend). cbn [blocks11_text flat_map app adf11_loop]. unfold sep in Hsep. rewrite Hsep.
+      cbn [s_start]. rewrite store_pending by exact Hp. cbn [bind].
+      destruct Hend as [Hc | (Hd & n & more & -> & Hn)].
+      + rewrite Hc. cbn [bind fst snd]. reflexivity.
+      + destruct (re_matches false (r11_end_c rx) t); [reflexivity|]. rewrite Hd, Hn. reflexivity.
+    - inversion Hbs as [|x l Hb Hl]; subst.
+      destruct Hb as (Hsep & Hnc & (zs & Hz & Hpz) & (d0 & ds & Hdata & Hd0) & Hnos & Hlen).
+      cbn [blocks11_text flat_map]. unfold block11_text at 1. cbn [app adf11_loop]. unfold sep in Hsep. rewrite Hsep.
+      cbn [s_start]. rewrite store_pending by exact Hp. cbn [bind]. rewrite Hnc.
+      assert (Hcont : (if re_matches false (r11_end_dash rx) (b_hdr b)
+                       then match (b_data b ++ flat_map block11_text bs) ++ t :: after with
+                            | [] => Err EIndex
+                            | nxt :: _ => Ok (tbl_set (block11_entry p) R, re_matches false (r11_c_line rx) nxt)
+                            end
+                       else Ok (tbl_set (block11_entry p) R, false)) = Ok (tbl_set (block11_entry p) R, false)).
+      { destruct (re_matches false (r11_end_dash rx) (b_hdr b)); [|reflexivity]. rewrite Hdata. cbn [app]. rewrite Hd0. reflexivity. }
+      rewrite Hcont. cbn [bind fst snd]. rewrite Hz, Hpz. cbn [of_opt bind].
+      rewrite <- app_assoc. rewrite loop_data by exact Hnos. rewrite app_nil_r.
+      fold (blocks11_text bs). rewrite (IH b _ t after Hl Ht Hlen). reflexivity.
+  Qed.
+
+  (* the loop from its initial state: any number of blocks, in any order of charges, then the terminator *)
+  Theorem adf11_blocks_roundtrip : forall bs t after, Forall block11_ok bs -> bs <> [] -> terminator_ok t after ->
+    adf11_loop rx n_t n_d (Some dens) (Some temps) (blocks11_text bs ++ t :: after)
+               {| s_start := None; s_charge := 0; s_rates := [] |}
+    = Ok (fold_left (fun a b => tbl_set (block11_entry b) a) bs []).
+  Proof.
+    intros [|b bs] t after Hbs Hne Ht; [congruence|].
+    inversion Hbs as [|x l Hb Hl]; subst.
+    destruct Hb as (Hsep & Hnc & (zs & Hz & Hpz) & _ & Hnos & Hlen).
+    cbn [blocks11_text flat_map]. unfold block11_text at 1. cbn [app adf11_loop]. unfold sep in Hsep. rewrite Hsep.
+    cbn [s_start s_rates bind fst snd]. rewrite Hz, Hpz. cbn [of_opt bind].
+    rewrite <- app_assoc. rewrite loop_data by exact Hnos. rewrite app_nil_r.
+    fold (blocks11_text bs). rewrite (loop_blocks bs b [] t after Hl Ht Hlen). reflexivity.
+  Qed.
+End Adf11.
+
+(* FILE LEVEL, ADF11 (resolved or unresolved): first line, the lines the resolved test skips, the grid, the blocks, the
+   terminator, anything after it *)
+Theorem adf11_file_roundtrip :
+  forall rx z name ls l0 t0 t1 t2 t3 t4 t5 t6 more zmin zmax n_d n_t l3 grid bs t after dens temps,
+  nth_error ls 0 = Some l0 ->
+  split_2ws (strip l0) = t0 :: t1 :: t2 :: t3 :: t4 :: t5 :: t6 :: more ->
+  parse_int t0 = Some z -> parse_int t1 = Some n_d -> parse_int t2 = Some n_t ->
+  parse_int t3 = Some zmin -> parse_int t4 = Some zmax ->
+  lower_str (strip_char "/"%char t5) = name ->
+  nth_error ls 3 = Some l3 ->
+  skipn (if re_matches false (r11_resolved rx) l3 then 2 else 4) ls = grid ++ blocks11_text bs ++ t :: after ->
+  Forall (fun g => re_matches false (r11_first_sep rx) g = false) grid ->
+  (exists b bs', bs = b :: bs' /\ re_matches false (r11_first_sep rx) (b_hdr b) = true) ->
+  fromstring grid = dens ++ temps -> List.length dens = nat_of n_d ->
+  Forall (block11_ok rx n_t n_d) bs -> terminator_ok rx t after ->
+  parse_adf11 rx z name ls = Ok (fold_left (fun a b => tbl_set (block11_entry n_t n_d dens temps b) a) bs []).
+Proof.
+  intros rx z name ls l0 t0 t1 t2 t3 t4 t5 t6 more zmin zmax n_d n_t l3 grid bs t after dens temps
+         H0 Hs P0 P1 P2 P3 P4 Hname H3 Hskip Hgrid (b & bs' & Hbs & Hfirst) Htok Hdl Hok Hterm.
+  unfold parse_adf11, nth_res. rewrite H0, H3. cbn [of_opt bind]. rewrite Hs.
+  cbn [nth_error of_opt bind]. rewrite P0, P1, P2, P3, P4. cbn [of_opt bind].
+  rewrite Hname, Z.eqb_refl. replace (streqb name name) with true by (symmetry; apply streqb_eq; reflexivity).
+  cbn [andb negb bind]. rewrite Hskip.
+  assert (Hfind : find_first_sep rx [] (grid ++ blocks11_text bs ++ t :: after) = Some (grid, blocks11_text bs ++ t :: after)).
+  { assert (G : forall g acc rest, Forall (fun g => re_matches false (r11_first_sep rx) g = false) g ->
+                match rest with [] => False | h :: _ => re_matches false (r11_first_sep rx) h = true end ->
+                find_first_sep rx acc (g ++ rest) = Some (rev acc ++ g, rest)).
+    { induction g as [|x g IH]; intros acc rest Hg Hr.
+      - destruct rest as [|h rest]; [destruct Hr|]. cbn [app find_first_sep]. rewrite Hr, app_nil_r. reflexivity.
+      - inversion Hg; subst. cbn [app find_first_sep]. rewrite H2. rewrite IH by assumption. cbn [rev]. rewrite <- app_assoc. reflexivity. }
+    rewrite G; [reflexivity | exact Hgrid |]. subst bs. cbn. exact Hfirst. }
+  rewrite Hfind. rewrite Htok.
+  rewrite <- Hdl. rewrite firstn_app_exact.
+  pose proof (skipn_app_exact dens temps 0) as Hsk. rewrite Nat.add_0_r in Hsk. rewrite Hsk. cbn [skipn].
+  apply adf11_blocks_roundtrip; [exact Hok | subst bs; discriminate | exact Hterm].
+Qed.
